@@ -208,6 +208,9 @@ side condition of `C26_no_replay`. `Arc.Generated.C26.sites` is regenerated from
 run, so this `decide` is re-checked against what the code says now. -/
 theorem C26_sites : ∀ s ∈ Arc.Generated.C26.sites, SiteOk s.2.1 s.2.2 = true := by decide
 
+/-- The model's lazy-sweep interval is the source's `nonceCacheEvictInterval` (regenerated fact). -/
+theorem C26_evict_interval_tied : Arc.Generated.C26.evictIntervalNs = evictIntervalNs := by decide
+
 /-- `SiteOk` is exactly the hypothesis of `C26_no_replay` for the configuration a site induces. -/
 theorem C26_site_cfg (tolNs ttlNs : Int) (h : SiteOk tolNs ttlNs = true) (h0 : 0 ≤ tolNs) :
     let cfg : Cfg := { tolSec := tolNs / nsPerSec, ttlNs := ttlNs }
